@@ -8,56 +8,25 @@ unparsable, or any `Request` with arbitrary strings / JSON values), every enviro
 provider and `CriticalWindow` present or not), every configuration, and every finite sequence of
 lines; the concurrency clause is over every schedule of the atomics model `Conc`.
 
+Vocabulary (defined in `Srtla/Lemmas/Control.lean`, all with the property's literal numbers):
+* `InRange t`        := `1000 ≤ t ∧ t ≤ 60000`
+* `ExactlyOne resp`  := `resp.result.isSome = !resp.error.isSome`
+* `code? o`          := the `error.code` of an optional response
+* `ShapeOK line o`   := blank ⇒ `o = none`; unparsable ⇒ `o` is an error `-32700` with `id = null`
+                        and no result; request with `id = some i` ⇒ `o = some resp`, `resp.id = i`,
+                        `ExactlyOne resp`; request without id ⇒ `o = none`
+* `Pointwise R xs ys` := same length and `R` at every index
+* `builtin`          := the six stdin methods; `BadParams m p` := the setter `m` finds no
+                        well-typed / known value in `p`
+* `statusReq p i`    := `{"jsonrpc":"2.0","method":"get_status","params":p,"id":i}`
+
 Totality ("returns without panicking") is carried by the model being a total Lean function whose
-every branch is tied to the real code by the differential run; the one `assert!` on the path
-(`Ord::clamp`'s `min <= max`) is discharged by `C18_clamp_bounds_ordered`.
+every branch is tied to the real code by the differential run (with `catch_unwind` per line on
+the real side); the one `assert!` on the path (`Ord::clamp`'s `min <= max`) is discharged by
+`C18_clamp_bounds_ordered`.
 -/
 namespace Srtla.Props.C18
 open Srtla.Control Srtla.Gen
-
-/-! ## Vocabulary of the property statement -/
-
-/-- The documented timeout range, with the property's literal numbers. -/
-def InRange (t : Nat) : Prop := 1000 ≤ t ∧ t ≤ 60000
-
-/-- "with either a result or an error": exactly one of the two members is present. -/
-def ExactlyOne (r : Response) : Prop := r.result.isSome = !r.error.isSome
-
-/-- The error code of a (possibly absent) response. -/
-def code? (o : Option Response) : Option Int := o.bind fun r => r.error.map (·.code)
-
-/-- Response shape demanded for one line. -/
-def ShapeOK (l : Line) (o : Option Response) : Prop :=
-  match l with
-  | .blank => o = none
-  | .unparsable =>
-    ∃ e, o = some { result := none, error := some e, id := .null } ∧ e.code = -32700
-  | .request r =>
-    match r.id with
-    | some i => ∃ resp, o = some resp ∧ resp.id = i ∧ ExactlyOne resp
-    | none => o = none
-
-/-- Position-wise relation between the input lines and the outputs (same length, related at
-every index). -/
-inductive Pointwise {α β : Type} (R : α → β → Prop) : List α → List β → Prop
-  | nil : Pointwise R [] []
-  | cons {a : α} {b : β} {as : List α} {bs : List β} :
-      R a b → Pointwise R as bs → Pointwise R (a :: as) (b :: bs)
-
-/-- A `get_status` request (any params, any id). -/
-def statusReq (p i : Json) : Line :=
-  .request { jsonrpc := "2.0", method := "get_status", params := p, id := some i }
-
-/-- The six built-in methods of the stdin entry point. -/
-def builtin : List String :=
-  ["set_mode", "set_quality", "set_stall_deselect", "set_conn_timeout", "get_status", "get_stats"]
-
-/-- "bad parameters" for the four setters, spelled out. -/
-def BadParams (m : String) (p : Json) : Prop :=
-  (m = "set_mode" ∧
-      ∀ s, (p.get "mode").bind Json.asStr = some s → s ≠ "classic" ∧ s ≠ "enhanced") ∨
-  ((m = "set_quality" ∨ m = "set_stall_deselect") ∧ (p.get "enabled").bind Json.asBool = none) ∨
-  (m = "set_conn_timeout" ∧ (p.get "ms").bind Json.asU64 = none)
 
 /-! ## `Ord::clamp` cannot assert -/
 
@@ -67,25 +36,6 @@ theorem C18_clamp_bounds_ordered :
   simp [Cfg.CONN_TIMEOUT_MS_MIN_eq, Cfg.CONN_TIMEOUT_MS_MAX_eq]
 
 /-! ## Response shape -/
-
-private theorem finish_shape (id : Option Json) (res : Except ErrObj Json) :
-    match id with
-    | some i => ∃ resp, finish id res = some resp ∧ resp.id = i ∧ ExactlyOne resp
-    | none => finish id res = none := by
-  cases id with
-  | none => rfl
-  | some i =>
-    cases res with
-    | ok v => exact ⟨_, rfl, rfl, rfl⟩
-    | error e => exact ⟨_, rfl, rfl, rfl⟩
-
-private theorem map_versionError_shape (id : Option Json) :
-    match id with
-    | some i => ∃ resp, id.map versionError = some resp ∧ resp.id = i ∧ ExactlyOne resp
-    | none => id.map versionError = none := by
-  cases id with
-  | none => rfl
-  | some i => exact ⟨_, rfl, rfl, rfl⟩
 
 /-- One line, stdin entry point. -/
 theorem C18_shape_sync (env : Env) (c : Config) (l : Line) :
@@ -101,26 +51,6 @@ theorem C18_shape_sync (env : Env) (c : Config) (l : Line) :
     · simp only [hv, ne_eq, not_false_eq_true, if_true]
       exact map_versionError_shape r.id
 
-private theorem async_resp_finish (env : Env) (c : Config) (ctx : Option Ctx) (r : Request)
-    (hv : r.jsonrpc = Control.JSONRPC_VERSION) :
-    ∃ res, (dispatchAsync env c ctx (.request r)).2.2 = finish r.id res := by
-  unfold dispatchAsync
-  simp only [hv, ne_eq, not_true_eq_false, if_false]
-  cases ctx with
-  | none => exact ⟨_, rfl⟩
-  | some x =>
-    simp only
-    by_cases h1 : r.method = "subscribe"
-    · rw [if_pos h1]; exact ⟨_, rfl⟩
-    · rw [if_neg h1]
-      by_cases h2 : r.method = "unsubscribe"
-      · rw [if_pos h2]; exact ⟨_, rfl⟩
-      · rw [if_neg h2]
-        by_cases h3 : r.method = "get_subscription_count"
-        · rw [if_pos h3]
-          exact ⟨.ok (.obj [("count", Json.ofNat x.hub.entries.length)]), rfl⟩
-        · rw [if_neg h3]; exact ⟨_, rfl⟩
-
 /-- One line, socket entry point, with or without a `SubscriptionContext`. -/
 theorem C18_shape_async (env : Env) (c : Config) (ctx : Option Ctx) (l : Line) :
     ShapeOK l (dispatchAsync env c ctx l).2.2 := by
@@ -128,13 +58,13 @@ theorem C18_shape_async (env : Env) (c : Config) (ctx : Option Ctx) (l : Line) :
   | blank => rfl
   | unparsable => exact ⟨_, rfl, by simp [Control.PARSE_ERROR_eq]⟩
   | request r =>
-    unfold ShapeOK dispatchAsync
+    unfold ShapeOK
     by_cases hv : r.jsonrpc = Control.JSONRPC_VERSION
     · obtain ⟨res, hres⟩ := async_resp_finish env c ctx r hv
-      unfold dispatchAsync at hres
       rw [hres]
       exact finish_shape r.id res
-    · simp only [hv, ne_eq, not_false_eq_true, if_true]
+    · unfold dispatchAsync
+      simp only [hv, ne_eq, not_false_eq_true, if_true]
       exact map_versionError_shape r.id
 
 /-- **Response shape, all sequences (stdin).**  For every sequence of lines, each under an
@@ -154,6 +84,10 @@ theorem C18_response_shape_async (c : Config) (ctx : Option Ctx) (ls : List (Env
   | nil => exact .nil
   | cons el rest ih => exact .cons (C18_shape_async el.1 c ctx el.2) (ih _ _)
 
+example : ShapeOK (.request ⟨"2.0", "set_mode", .obj [("mode", .str "classic")], some (.str "a")⟩)
+    (some (Response.ok (.str "a") (.obj [("mode", .str "classic")]))) :=
+  ⟨_, rfl, rfl, rfl⟩
+
 /-- **A notification is still applied**: dropping the id of a request changes nothing but the
 absence of the response — the configuration afterwards is the one the same request with any id
 `i` produces. -/
@@ -164,7 +98,7 @@ theorem C18_notification_applied (env : Env) (c : Config) (r : Request) (i : Jso
   unfold dispatchInner
   by_cases hv : r.jsonrpc = Control.JSONRPC_VERSION <;> simp [hv, finish]
 
-/-- Same for the socket entry point (configuration and hub state). -/
+/-- Same for the socket entry point (configuration and hub / owned-id state). -/
 theorem C18_notification_applied_async (env : Env) (c : Config) (ctx : Option Ctx) (r : Request)
     (i : Json) :
     (dispatchAsync env c ctx (.request { r with id := none })).2.2 = none ∧
@@ -178,75 +112,52 @@ theorem C18_notification_applied_async (env : Env) (c : Config) (ctx : Option Ct
     | none => simp [hv, finish]
     | some x =>
       simp only [hv, ne_eq, not_true_eq_false, if_false]
-      split
-      · simp [finish]
-      · split
-        · simp [finish]
-        · split <;> simp [finish]
+      by_cases h1 : r.method = "subscribe"
+      · simp [h1, finish]
+      · by_cases h2 : r.method = "unsubscribe"
+        · simp [h2, finish]
+        · by_cases h3 : r.method = "get_subscription_count"
+          · simp [h3, finish]
+          · simp [h1, h2, h3, finish]
   · simp [hv]
 
-example : ShapeOK (.request ⟨"2.0", "set_mode", .obj [("mode", .str "classic")], some (.str "a")⟩)
-    (some (Response.ok (.str "a") (.obj [("mode", .str "classic")]))) :=
-  ⟨_, rfl, rfl, rfl⟩
+/-! ## Error codes (stdin entry point; the socket agrees by `C18_sync_eq_async*`) -/
 
-/-! ## Error codes -/
-
-private theorem code_finish (id : Option Json) (res : Except ErrObj Json) (k : Int) :
-    code? (finish id res) = some k ↔ ∃ i e, id = some i ∧ res = .error e ∧ e.code = k := by
-  cases id with
-  | none => simp [finish, code?]
-  | some i =>
-    cases res with
-    | ok v => simp [finish, code?, Response.ok]
-    | error e => simp [finish, code?, Response.err]
-
-private theorem code_version (id : Option Json) (k : Int) :
-    code? (id.map versionError) = some k ↔ (∃ i, id = some i) ∧ k = -32600 := by
-  cases id with
-  | none => simp [code?]
-  | some i =>
-    simp [code?, versionError, Response.err, ErrObj.new, Control.INVALID_REQUEST_eq]
-    omega
-
-/-- `-32700` exactly for unparsable lines (any deserialisation failure of the request struct). -/
+/-- `-32700` exactly for unparsable lines (any deserialisation failure of the request struct,
+including valid JSON of the wrong shape). -/
 theorem C18_code_parse_error (env : Env) (c : Config) (l : Line) :
     code? (dispatchInner env c l).2 = some (-32700) ↔ l = .unparsable := by
   cases l with
-  | blank => simp [dispatchInner, code?]
-  | unparsable => simp [dispatchInner, code?, parseErrorResponse, Response.err, Control.PARSE_ERROR_eq]
+  | blank => simpa using code_blank env c (-32700)
+  | unparsable => simpa using code_unparsable env c
   | request r =>
+    simp only [reduceCtorEq, iff_false]
     by_cases hv : r.jsonrpc = "2.0"
-    · rw [dispatchInner_v2 env c r hv, code_finish]
-      have H := handleMethod_HM env c r.method r.params
-      generalize handleMethod env c r.method r.params = out at H
-      simp only [reduceCtorEq, iff_false, not_exists, not_and]
-      intro i e _ he
-      cases H <;> simp_all [ErrObj.new]
-      all_goals (subst he; simp)
-    · rw [dispatchInner_badVersion env c r hv, code_version]
-      simp
+    · rw [code_v2 env c r hv]
+      rintro ⟨_, e, he, hc⟩
+      have := hm_codes env c r.method r.params e he
+      omega
+    · rw [code_badVersion env c r hv]
+      omega
 
 /-- `-32600` exactly for decoded requests with an id whose `jsonrpc` member is not `"2.0"`. -/
 theorem C18_code_invalid_request (env : Env) (c : Config) (l : Line) :
     code? (dispatchInner env c l).2 = some (-32600) ↔
       ∃ r i, l = .request r ∧ r.id = some i ∧ r.jsonrpc ≠ "2.0" := by
   cases l with
-  | blank => simp [dispatchInner, code?]
-  | unparsable => simp [dispatchInner, code?, parseErrorResponse, Response.err, Control.PARSE_ERROR_eq]
+  | blank => simpa using code_blank env c (-32600)
+  | unparsable => simp [code_unparsable env c]
   | request r =>
     by_cases hv : r.jsonrpc = "2.0"
-    · rw [dispatchInner_v2 env c r hv, code_finish]
-      have H := handleMethod_HM env c r.method r.params
-      generalize handleMethod env c r.method r.params = out at H
+    · rw [code_v2 env c r hv]
       constructor
-      · rintro ⟨i, e, _, he, hc⟩
-        exfalso
-        cases H <;> simp_all [ErrObj.new]
-        all_goals (subst he; simp at hc)
+      · rintro ⟨_, e, he, hc⟩
+        have := hm_codes env c r.method r.params e he
+        omega
       · rintro ⟨r', i, hr, _, hv'⟩
         cases hr
         exact absurd hv hv'
-    · rw [dispatchInner_badVersion env c r hv, code_version]
+    · rw [code_badVersion env c r hv]
       constructor
       · rintro ⟨⟨i, hi⟩, _⟩
         exact ⟨r, i, rfl, hi, hv⟩
@@ -260,25 +171,18 @@ theorem C18_code_method_not_found (env : Env) (c : Config) (l : Line) :
     code? (dispatchInner env c l).2 = some (-32601) ↔
       ∃ r i, l = .request r ∧ r.id = some i ∧ r.jsonrpc = "2.0" ∧ r.method ∉ builtin := by
   cases l with
-  | blank => simp [dispatchInner, code?]
-  | unparsable => simp [dispatchInner, code?, parseErrorResponse, Response.err, Control.PARSE_ERROR_eq]
+  | blank => simpa using code_blank env c (-32601)
+  | unparsable => simp [code_unparsable env c]
   | request r =>
     by_cases hv : r.jsonrpc = "2.0"
-    · rw [dispatchInner_v2 env c r hv, code_finish]
-      have H := handleMethod_HM env c r.method r.params
-      generalize handleMethod env c r.method r.params = out at H
+    · rw [code_v2 env c r hv, hm_code_601]
       constructor
-      · rintro ⟨i, e, hi, he, hc⟩
-        refine ⟨r, i, rfl, hi, hv, ?_⟩
-        cases H <;> simp_all [ErrObj.new, builtin]
-        all_goals first
-          | (subst he; simp at hc)
-          | (rename_i h; rcases h with h | h <;> simp [h])
+      · rintro ⟨⟨i, hi⟩, hm⟩
+        exact ⟨r, i, rfl, hi, hv, hm⟩
       · rintro ⟨r', i, hr, hi, _, hm⟩
         cases hr
-        refine ⟨i, ?_⟩
-        cases H <;> simp_all [ErrObj.new, builtin]
-    · rw [dispatchInner_badVersion env c r hv, code_version]
+        exact ⟨⟨i, hi⟩, hm⟩
+    · rw [code_badVersion env c r hv]
       constructor
       · rintro ⟨_, h⟩
         omega
@@ -294,26 +198,18 @@ theorem C18_code_invalid_params (env : Env) (c : Config) (l : Line) :
     code? (dispatchInner env c l).2 = some (-32602) ↔
       ∃ r i, l = .request r ∧ r.id = some i ∧ r.jsonrpc = "2.0" ∧ BadParams r.method r.params := by
   cases l with
-  | blank => simp [dispatchInner, code?]
-  | unparsable => simp [dispatchInner, code?, parseErrorResponse, Response.err, Control.PARSE_ERROR_eq]
+  | blank => simpa using code_blank env c (-32602)
+  | unparsable => simp [code_unparsable env c]
   | request r =>
     by_cases hv : r.jsonrpc = "2.0"
-    · rw [dispatchInner_v2 env c r hv, code_finish]
-      have H := handleMethod_HM env c r.method r.params
-      generalize handleMethod env c r.method r.params = out at H
+    · rw [code_v2 env c r hv, hm_code_602]
       constructor
-      · rintro ⟨i, e, hi, he, hc⟩
-        refine ⟨r, i, rfl, hi, hv, ?_⟩
-        unfold BadParams
-        cases H <;> simp_all [ErrObj.new]
-        all_goals (subst he; simp at hc)
-      · rintro ⟨r', i, hr, hi, _, hb⟩
+      · rintro ⟨⟨i, hi⟩, hm⟩
+        exact ⟨r, i, rfl, hi, hv, hm⟩
+      · rintro ⟨r', i, hr, hi, _, hm⟩
         cases hr
-        refine ⟨i, ?_⟩
-        unfold BadParams at hb
-        cases H <;> simp_all [ErrObj.new]
-        all_goals (rename_i md _; cases md <;> simp_all [Mode.toStr])
-    · rw [dispatchInner_badVersion env c r hv, code_version]
+        exact ⟨⟨i, hi⟩, hm⟩
+    · rw [code_badVersion env c r hv]
       constructor
       · rintro ⟨_, h⟩
         omega
@@ -327,23 +223,18 @@ theorem C18_code_internal (env : Env) (c : Config) (l : Line) :
       ∃ r i, l = .request r ∧ r.id = some i ∧ r.jsonrpc = "2.0" ∧ r.method = "get_stats" ∧
         env.stats = none := by
   cases l with
-  | blank => simp [dispatchInner, code?]
-  | unparsable => simp [dispatchInner, code?, parseErrorResponse, Response.err, Control.PARSE_ERROR_eq]
+  | blank => simpa using code_blank env c (-32603)
+  | unparsable => simp [code_unparsable env c]
   | request r =>
     by_cases hv : r.jsonrpc = "2.0"
-    · rw [dispatchInner_v2 env c r hv, code_finish]
-      have H := handleMethod_HM env c r.method r.params
-      generalize handleMethod env c r.method r.params = out at H
+    · rw [code_v2 env c r hv, hm_code_603]
       constructor
-      · rintro ⟨i, e, hi, he, hc⟩
-        refine ⟨r, i, rfl, hi, hv, ?_⟩
-        cases H <;> simp_all [ErrObj.new]
-        all_goals (subst he; simp at hc)
-      · rintro ⟨r', i, hr, hi, _, hm, hs⟩
+      · rintro ⟨⟨i, hi⟩, hm⟩
+        exact ⟨r, i, rfl, hi, hv, hm⟩
+      · rintro ⟨r', i, hr, hi, _, hm⟩
         cases hr
-        refine ⟨i, ?_⟩
-        cases H <;> simp_all [ErrObj.new]
-    · rw [dispatchInner_badVersion env c r hv, code_version]
+        exact ⟨⟨i, hi⟩, hm⟩
+    · rw [code_badVersion env c r hv]
       constructor
       · rintro ⟨_, h⟩
         omega
@@ -351,30 +242,346 @@ theorem C18_code_internal (env : Env) (c : Config) (l : Line) :
         cases hr
         exact absurd hv' hv
 
-/-- No other error code is ever produced. -/
+/-- No other error code is ever produced; hence a response carries a `result` exactly when none
+of the five conditions above holds. -/
 theorem C18_codes_exhaustive (env : Env) (c : Config) (l : Line) (k : Int)
     (h : code? (dispatchInner env c l).2 = some k) :
     k = -32700 ∨ k = -32600 ∨ k = -32601 ∨ k = -32602 ∨ k = -32603 := by
   cases l with
-  | blank => simp [dispatchInner, code?] at h
+  | blank => exact absurd h (code_blank env c k)
   | unparsable =>
-    simp [dispatchInner, code?, parseErrorResponse, Response.err, Control.PARSE_ERROR_eq] at h
-    omega
+    rw [code_unparsable env c] at h
+    cases h
+    exact .inl rfl
   | request r =>
     by_cases hv : r.jsonrpc = "2.0"
-    · rw [dispatchInner_v2 env c r hv, code_finish] at h
-      obtain ⟨i, e, _, he, hc⟩ := h
-      have H := handleMethod_HM env c r.method r.params
-      generalize handleMethod env c r.method r.params = out at H he
-      cases H <;> simp_all [ErrObj.new]
-      all_goals (subst he; simp at hc; omega)
-    · rw [dispatchInner_badVersion env c r hv, code_version] at h
+    · rw [code_v2 env c r hv] at h
+      obtain ⟨_, e, he, hc⟩ := h
+      have := hm_codes env c r.method r.params e he
+      omega
+    · rw [code_badVersion env c r hv] at h
       omega
 
+/-- `1000.0` (a float) is not an acceptable `ms`. -/
 example : code? (dispatchInner ⟨none, none⟩ Config.new
     (.request ⟨"2.0", "set_conn_timeout", .obj [("ms", .num (.flt 4652007308841189376))], some .null⟩)).2
     = some (-32602) := by
   rw [C18_code_invalid_params]
   exact ⟨_, _, rfl, rfl, rfl, .inr (.inr ⟨rfl, by simp [Json.get, Json.asU64]⟩)⟩
+
+/-! ## A successful `set_*` is visible in the next status and snapshot
+
+`mid` is any sequence of further lines (blank, unparsable, requests of any kind, under any
+environments) that does not call the same setter again; the status is asked with any params,
+any id, under any environment. -/
+
+theorem C18_set_visible_mode (env : Env) (c : Config) (r : Request) (md : Mode)
+    (hv : r.jsonrpc = "2.0") (hm : r.method = "set_mode")
+    (hp : (r.params.get "mode").bind Json.asStr = some md.toStr)
+    (mid : List (Env × Line))
+    (hmid : ∀ el ∈ mid, ∀ q, el.2 = .request q → q.method ≠ "set_mode")
+    (env' : Env) (p' i' : Json) :
+    let c1 := (dispatchInner env c (.request r)).1
+    let c2 := (runSync c1 mid).1
+    (∀ i, r.id = some i → (dispatchInner env c (.request r)).2 =
+        some (Response.ok i (.obj [("mode", .str md.toStr)]))) ∧
+    c1.snapshot.mode = md ∧ c2.snapshot.mode = md ∧
+    ∃ st, (dispatchInner env' c2 (statusReq p' i')).2 = some (Response.ok i' st) ∧
+      st.get "mode" = some (.str md.toStr) := by
+  intro c1 c2
+  have h1 : dispatchInner env c (.request r) =
+      (c.setMode md, finish r.id (.ok (.obj [("mode", .str md.toStr)]))) := by
+    rw [dispatchInner_v2 env c r hv, hm, handleMethod_set_mode env c r.params md hp]
+  have hc1 : c1.mode = md.asU8 := by simp [c1, h1, Config.setMode]
+  have hc2 : c2.mode = md.asU8 := by
+    rw [← hc1]
+    exact runSync_frame (·.mode) "set_mode" (by simp) (by simp [Config.setQuality])
+      (by simp [Config.setStall]) (by simp [Config.setConnTimeout]) c1 mid hmid
+  refine ⟨?_, ?_, ?_, ?_⟩
+  · intro i hi
+    simp [h1, hi, finish]
+  · simp [Config.snapshot, hc1, Mode.fromU8_asU8]
+  · simp [Config.snapshot, hc2, Mode.fromU8_asU8]
+  · refine ⟨_, by rw [status_reply], ?_⟩
+    simp [statusJson, Json.get, List.find?, Config.snapshot, hc2, Mode.fromU8_asU8]
+
+theorem C18_set_visible_quality (env : Env) (c : Config) (r : Request) (b : Bool)
+    (hv : r.jsonrpc = "2.0") (hm : r.method = "set_quality")
+    (hp : (r.params.get "enabled").bind Json.asBool = some b)
+    (mid : List (Env × Line))
+    (hmid : ∀ el ∈ mid, ∀ q, el.2 = .request q → q.method ≠ "set_quality")
+    (env' : Env) (p' i' : Json) :
+    let c1 := (dispatchInner env c (.request r)).1
+    let c2 := (runSync c1 mid).1
+    (∀ i, r.id = some i → (dispatchInner env c (.request r)).2 =
+        some (Response.ok i (.obj [("enabled", .bool b)]))) ∧
+    c1.snapshot.quality = b ∧ c2.snapshot.quality = b ∧
+    ∃ st, (dispatchInner env' c2 (statusReq p' i')).2 = some (Response.ok i' st) ∧
+      st.get "quality_enabled" = some (.bool b) := by
+  intro c1 c2
+  have h1 : dispatchInner env c (.request r) =
+      (c.setQuality b, finish r.id (.ok (.obj [("enabled", .bool b)]))) := by
+    rw [dispatchInner_v2 env c r hv, hm, handleMethod_set_quality env c r.params b hp]
+  have hc1 : c1.quality = b := by simp [c1, h1, Config.setQuality]
+  have hc2 : c2.quality = b := by
+    rw [← hc1]
+    exact runSync_frame (·.quality) "set_quality" (by simp [Config.setMode]) (by simp)
+      (by simp [Config.setStall]) (by simp [Config.setConnTimeout]) c1 mid hmid
+  refine ⟨?_, ?_, ?_, ?_⟩
+  · intro i hi
+    simp [h1, hi, finish]
+  · simp [Config.snapshot, hc1]
+  · simp [Config.snapshot, hc2]
+  · refine ⟨_, by rw [status_reply], ?_⟩
+    simp [statusJson, Json.get, List.find?, Config.snapshot, hc2]
+
+theorem C18_set_visible_stall_deselect (env : Env) (c : Config) (r : Request) (b : Bool)
+    (hv : r.jsonrpc = "2.0") (hm : r.method = "set_stall_deselect")
+    (hp : (r.params.get "enabled").bind Json.asBool = some b)
+    (mid : List (Env × Line))
+    (hmid : ∀ el ∈ mid, ∀ q, el.2 = .request q → q.method ≠ "set_stall_deselect")
+    (env' : Env) (p' i' : Json) :
+    let c1 := (dispatchInner env c (.request r)).1
+    let c2 := (runSync c1 mid).1
+    (∀ i, r.id = some i → (dispatchInner env c (.request r)).2 =
+        some (Response.ok i (.obj [("enabled", .bool b)]))) ∧
+    c1.snapshot.stall = b ∧ c2.snapshot.stall = b ∧
+    ∃ st, (dispatchInner env' c2 (statusReq p' i')).2 = some (Response.ok i' st) ∧
+      st.get "stall_deselect" = some (.bool b) := by
+  intro c1 c2
+  have h1 : dispatchInner env c (.request r) =
+      (c.setStall b, finish r.id (.ok (.obj [("enabled", .bool b)]))) := by
+    rw [dispatchInner_v2 env c r hv, hm, handleMethod_set_stall env c r.params b hp]
+  have hc1 : c1.stall = b := by simp [c1, h1, Config.setStall]
+  have hc2 : c2.stall = b := by
+    rw [← hc1]
+    exact runSync_frame (·.stall) "set_stall_deselect" (by simp [Config.setMode])
+      (by simp [Config.setQuality]) (by simp) (by simp [Config.setConnTimeout]) c1 mid hmid
+  refine ⟨?_, ?_, ?_, ?_⟩
+  · intro i hi
+    simp [h1, hi, finish]
+  · simp [Config.snapshot, hc1]
+  · simp [Config.snapshot, hc2]
+  · refine ⟨_, by rw [status_reply], ?_⟩
+    simp [statusJson, Json.get, List.find?, Config.snapshot, hc2]
+
+/-- `set_conn_timeout`: what becomes visible is the **clamped** value, and the reply says so. -/
+theorem C18_set_visible_conn_timeout (env : Env) (c : Config) (r : Request) (ms : Nat)
+    (hv : r.jsonrpc = "2.0") (hm : r.method = "set_conn_timeout")
+    (hp : (r.params.get "ms").bind Json.asU64 = some ms)
+    (mid : List (Env × Line))
+    (hmid : ∀ el ∈ mid, ∀ q, el.2 = .request q → q.method ≠ "set_conn_timeout")
+    (env' : Env) (p' i' : Json) :
+    let applied := clampU64 ms 1000 60000
+    let c1 := (dispatchInner env c (.request r)).1
+    let c2 := (runSync c1 mid).1
+    (∀ i, r.id = some i → (dispatchInner env c (.request r)).2 =
+        some (Response.ok i (.obj [("ms", .num (.pos applied))]))) ∧
+    c1.snapshot.timeout = applied ∧ c2.snapshot.timeout = applied ∧
+    ∃ st, (dispatchInner env' c2 (statusReq p' i')).2 = some (Response.ok i' st) ∧
+      st.get "conn_timeout_ms" = some (.num (.pos applied)) := by
+  intro applied c1 c2
+  have h1 : dispatchInner env c (.request r) =
+      ({ c with timeout := applied }, finish r.id (.ok (.obj [("ms", .num (.pos applied))]))) := by
+    rw [dispatchInner_v2 env c r hv, hm, handleMethod_set_conn_timeout env c r.params ms hp]
+    simp [Config.setConnTimeout, applied, Json.ofNat, Cfg.CONN_TIMEOUT_MS_MIN_eq,
+      Cfg.CONN_TIMEOUT_MS_MAX_eq]
+  have hc1 : c1.timeout = applied := by simp [c1, h1]
+  have hc2 : c2.timeout = applied := by
+    rw [← hc1]
+    exact runSync_frame (·.timeout) "set_conn_timeout" (by simp [Config.setMode])
+      (by simp [Config.setQuality]) (by simp [Config.setStall]) (by simp) c1 mid hmid
+  refine ⟨?_, ?_, ?_, ?_⟩
+  · intro i hi
+    simp [h1, hi, finish]
+  · simp [Config.snapshot, hc1]
+  · simp [Config.snapshot, hc2]
+  · refine ⟨_, by rw [status_reply], ?_⟩
+    simp [statusJson, Json.get, List.find?, Config.snapshot, hc2, Json.ofNat]
+
+/-- The hypotheses are satisfiable: a notification `set_conn_timeout {ms: 7}` followed by junk. -/
+example :
+    let r : Request := ⟨"2.0", "set_conn_timeout", .obj [("ms", .num (.pos 7))], none⟩
+    let mid : List (Env × Line) := [(⟨none, none⟩, .unparsable), (⟨none, none⟩, .blank)]
+    (runSync (dispatchInner ⟨none, none⟩ Config.new (.request r)).1 mid).1.snapshot.timeout = 1000 :=
+  (C18_set_visible_conn_timeout ⟨none, none⟩ Config.new _ 7 rfl rfl
+    (by simp [Json.get, Json.asU64]) _ (by simp) ⟨none, none⟩ .null .null).2.2.1
+
+/-! ## The connection timeout is always within 1000..60000 -/
+
+/-- Both constructors establish the range, whatever the CLI passes. -/
+theorem C18_timeout_clamped_init :
+    InRange Config.new.timeout ∧
+    ∀ mode nq ns mi st t, InRange (Config.fromCli mode nq ns mi st t).timeout := by
+  refine ⟨by simp [InRange, Config.new, Cfg.CONN_TIMEOUT_MS_eq], ?_⟩
+  intro mode nq ns mi st t
+  exact clamp_inRange t
+
+/-- Every line, either entry point, any hub state: the range is preserved. -/
+theorem C18_timeout_clamped_step (env : Env) (c : Config) (l : Line) (h : InRange c.timeout) :
+    InRange (dispatchInner env c l).1.timeout ∧
+    ∀ ctx, InRange (dispatchAsync env c ctx l).1.timeout := by
+  have hm : ∀ m p, InRange (handleMethod env c m p).1.timeout := by
+    intro m p
+    rcases (handleMethod_HM env c m p).config with
+      h0 | ⟨_, md, h0⟩ | ⟨_, b, h0⟩ | ⟨_, b, h0⟩ | ⟨_, ms, h0⟩ <;> rw [h0]
+    · exact h
+    · exact h
+    · exact h
+    · exact h
+    · exact clamp_inRange ms
+  constructor
+  · cases l with
+    | blank => exact h
+    | unparsable => exact h
+    | request r =>
+      by_cases hv : r.jsonrpc = "2.0"
+      · rw [dispatchInner_v2 env c r hv]; exact hm _ _
+      · rw [dispatchInner_badVersion env c r hv]; exact h
+  · intro ctx
+    cases l with
+    | blank => exact h
+    | unparsable => exact h
+    | request r =>
+      unfold dispatchAsync
+      by_cases hv : r.jsonrpc = Control.JSONRPC_VERSION
+      · simp only [hv, ne_eq, not_true_eq_false, if_false]
+        cases ctx with
+        | none => exact hm _ _
+        | some x =>
+          simp only
+          split
+          · exact h
+          · split
+            · exact h
+            · split
+              · exact h
+              · exact hm _ _
+      · simp only [hv, ne_eq, not_false_eq_true, if_true]; exact h
+
+/-- **Always**, over every sequence of lines from either constructor (every prefix of a
+sequence is a sequence, so this is an invariant of the whole history). -/
+theorem C18_timeout_clamped (c : Config) (h : InRange c.timeout) (ls : List (Env × Line)) :
+    InRange (runSync c ls).1.timeout ∧ ∀ ctx, InRange (runAsync c ctx ls).1.timeout := by
+  induction ls generalizing c with
+  | nil => exact ⟨h, fun _ => h⟩
+  | cons el rest ih =>
+    have hs := C18_timeout_clamped_step el.1 c el.2 h
+    exact ⟨(ih _ hs.1).1, fun ctx => (ih _ (hs.2 ctx)).2 _⟩
+
+/-- The reply to `set_conn_timeout` echoes the value that was stored, which is the clamp of the
+request and lies in the range. -/
+theorem C18_timeout_reply_echoes_stored (env : Env) (c : Config) (r : Request) (ms : Nat) (i : Json)
+    (hv : r.jsonrpc = "2.0") (hm : r.method = "set_conn_timeout")
+    (hp : (r.params.get "ms").bind Json.asU64 = some ms) (hi : r.id = some i) :
+    let out := dispatchInner env c (.request r)
+    out.2 = some (Response.ok i (.obj [("ms", .num (.pos out.1.timeout))])) ∧
+    out.1.timeout = clampU64 ms 1000 60000 ∧ InRange out.1.timeout := by
+  have h := C18_set_visible_conn_timeout env c r ms hv hm hp [] (by simp) env .null .null
+  simp only [runSync] at h
+  obtain ⟨h1, h2, -, -⟩ := h
+  simp only [Config.snapshot] at h2
+  refine ⟨?_, h2, ?_⟩
+  · rw [h2]; exact h1 i hi
+  · rw [h2]; exact clampU64_range ms 1000 60000 (by omega)
+
+/-- **Every interleaving.**  `DynamicConfig` as independent relaxed atomic cells; any number of
+tasks calling setters (one store each, the timeout setter clamping first) and `snapshot()` (six
+separate loads in any order, each observing *any* value of the cell's modification order),
+scheduled arbitrarily.  From a configuration in range: every value ever stored in the timeout
+cell, every timeout a reader has loaded into a snapshot under construction, every snapshot
+returned and every value returned by `set_conn_timeout_ms` is within 1000..60000, and the
+returned value is the clamp of the request. -/
+theorem C18_timeout_clamped_concurrent (c : Config) (h : InRange c.timeout) (acts : List Act) :
+    let fin := (Conc.init c).run acts
+    (∀ v ∈ fin.1.cells.timeout, InRange v) ∧
+    (∀ t p, fin.1.tasks t = .snapping p → ∀ v, p.timeout = some v → InRange v) ∧
+    (∀ e ∈ fin.2, match e with
+      | .timeoutApplied _ ms applied => applied = clampU64 ms 1000 60000 ∧ InRange applied
+      | .snapshot _ snap => InRange snap.timeout) := by
+  obtain ⟨⟨h1, h2⟩, h3⟩ := Conc.run_inv (Conc.init c) acts (Conc.init_inv c h)
+  refine ⟨h1, h2, ?_⟩
+  intro e he
+  have := h3 e he
+  cases e <;> exact this
+
+/-- In the concurrent model too the value returned by the setter is the one it stored: the
+store step that emits `timeoutApplied _ _ a` puts `a` at the head of the cell's history. -/
+theorem C18_timeout_concurrent_reply_is_store (s s' : Conc) (t t' ms a : Nat)
+    (h : s.step (.store t) = some (s', some (.timeoutApplied t' ms a))) :
+    s'.cells.timeout = a :: s.cells.timeout := by
+  simp only [Conc.step] at h
+  split at h
+  · rename_i op _
+    cases op <;> simp at h
+    obtain ⟨rfl, -, -, rfl⟩ := h
+    rfl
+  · cases h
+
+/-- The model is not vacuous: a torn snapshot (mode read before a `set_mode`, timeout read after
+a `set_conn_timeout 5`) is reachable, and its timeout is the clamped 1000. -/
+example :
+    ((Conc.init Config.new).run
+      [.call 0 .snapshot, .load 0 .mode 0, .call 1 (.setMode .classic), .store 1,
+       .call 2 (.setTimeout 5), .store 2, .load 0 .timeout 0, .load 0 .quality 0,
+       .load 0 .stall 0, .load 0 .minInFlight 0, .load 0 .ackStale 0, .ret 0]).2 =
+      [.timeoutApplied 2 5 1000,
+       .snapshot 0 ⟨.enhanced, true, true, 32, 3000, 1000⟩] := by
+  decide
+
+/-! ## The stdin and socket entry points agree -/
+
+/-- Without a `SubscriptionContext` the socket entry point is the stdin one, on every line. -/
+theorem C18_sync_eq_async_no_ctx (env : Env) (c : Config) (l : Line) :
+    dispatchAsync env c none l = ((dispatchInner env c l).1, none, (dispatchInner env c l).2) := by
+  cases l with
+  | blank => rfl
+  | unparsable => rfl
+  | request r =>
+    unfold dispatchAsync dispatchInner
+    by_cases hv : r.jsonrpc = Control.JSONRPC_VERSION <;> simp [hv]
+
+/-- With a `SubscriptionContext`, every line that is not a version-2.0 request for `subscribe`,
+`unsubscribe` or `get_subscription_count` gets the same response and has the same effect as on
+stdin, and leaves the hub and the owned ids alone. -/
+theorem C18_sync_eq_async (env : Env) (c : Config) (x : Ctx) (l : Line)
+    (h : ∀ r, l = .request r → r.jsonrpc = "2.0" →
+      r.method ≠ "subscribe" ∧ r.method ≠ "unsubscribe" ∧ r.method ≠ "get_subscription_count") :
+    dispatchAsync env c (some x) l =
+      ((dispatchInner env c l).1, some x, (dispatchInner env c l).2) := by
+  cases l with
+  | blank => rfl
+  | unparsable => rfl
+  | request r =>
+    unfold dispatchAsync dispatchInner
+    by_cases hv : r.jsonrpc = Control.JSONRPC_VERSION
+    · obtain ⟨h1, h2, h3⟩ := h r rfl hv
+      simp [hv, h1, h2, h3]
+    · simp [hv]
+
+/-- Whole sessions: if no line is a subscription call, the two entry points produce the same
+responses and the same final configuration, from any hub state. -/
+theorem C18_sync_eq_async_run (c : Config) (ctx : Option Ctx) (ls : List (Env × Line))
+    (h : ∀ el ∈ ls, ∀ r, el.2 = .request r → r.jsonrpc = "2.0" →
+      r.method ≠ "subscribe" ∧ r.method ≠ "unsubscribe" ∧ r.method ≠ "get_subscription_count") :
+    runAsync c ctx ls = ((runSync c ls).1, ctx, (runSync c ls).2) := by
+  induction ls generalizing c with
+  | nil => rfl
+  | cons el rest ih =>
+    have hstep : dispatchAsync el.1 c ctx el.2 =
+        ((dispatchInner el.1 c el.2).1, ctx, (dispatchInner el.1 c el.2).2) := by
+      cases ctx with
+      | none => exact C18_sync_eq_async_no_ctx el.1 c el.2
+      | some x => exact C18_sync_eq_async el.1 c x el.2 (h el (List.mem_cons_self ..))
+    simp only [runAsync, runSync, hstep]
+    rw [ih _ (fun el' hel => h el' (List.mem_cons_of_mem _ hel))]
+
+/-- The three excluded methods really differ (so the exclusion is needed, not vacuous). -/
+example :
+    code? (dispatchInner ⟨none, none⟩ Config.new
+      (.request ⟨"2.0", "get_subscription_count", .null, some .null⟩)).2 = some (-32601) ∧
+    code? (dispatchAsync ⟨none, none⟩ Config.new (some Ctx.init)
+      (.request ⟨"2.0", "get_subscription_count", .null, some .null⟩)).2.2 = none := by
+  decide
 
 end Srtla.Props.C18
